@@ -471,6 +471,163 @@ def copy_loop_verdict(f, kind: str) -> Optional[List[str]]:
     return diffs
 
 
+SCALAR_SHAPES = [[1, 1], [0, 0], [1, 0], [0, 1], [1, 2], [2, 1], [2, 2], [1, 1, 3], [1, 1, 0], [1, 1, 1, 2], [2, 1, 1], [1, 3, 1]]
+
+
+def scalar_guard_verdict(h, f) -> Optional[List[str]]:
+    """checkScalar run (own interpreter) on arrays of every small shape, the empty ones and the N-d ones whose first two extents
+    are 1 included, for several classes: it must raise for everything but 1x1.  None when the interpreter cannot follow it."""
+    from .cinterp import CError, CUnknown, MxArray, run_function
+    f = inline_helpers(h, f)
+    params = [p.get("name") for p in f.get("inner", []) if p.get("kind") == "ParmVarDecl"]
+    if not params:
+        return None
+    diffs: List[str] = []
+    try:
+        for dims in SCALAR_SHAPES:
+            for cls in ("mxDOUBLE_CLASS", "mxLOGICAL_CLASS", "mxUINT64_CLASS"):
+                cnt = 1
+                for d in dims:
+                    cnt *= d
+                arr = MxArray(0, 0, [float(k) for k in range(cnt)], cls=cls, dims=dims)
+                args = {params[0]: arr}
+                for p in params[1:]:
+                    args[p] = "name"
+                shape = "x".join(map(str, dims))
+                try:
+                    run_function(f, args)
+                    if dims != [1, 1]:
+                        diffs.append(f"a {shape} array passes as a scalar")
+                except CError:
+                    if dims == [1, 1]:
+                        diffs.append("a 1x1 array is refused")
+                if arr.oob:
+                    diffs.append(f"{shape}: {arr.oob[0]}")
+    except (CUnknown, IndexError, KeyError, TypeError):
+        return None
+    return sorted(set(diffs), key=diffs.index)
+
+
+def _string_spec(h, fam: str):
+    sp = h.specialisations(fam)
+    f = sp.get("std::string") or sp.get("string") or next((f_ for t, f_ in sp.items() if "basic_string" in t or t.endswith("string")), None)
+    return _delegate(h, f) if f is not None and fam == "unwrap" else f
+
+
+def _boundary_lengths(f) -> List[int]:
+    """Lengths worth trying: the small ones and the neighbours of every constant the function mentions (a literal, the extent of
+    a local array) - a fixed-size buffer has its edge there."""
+    import re as _re
+    consts = set()
+    for x in walk(f):
+        if x.get("kind") == "IntegerLiteral":
+            try:
+                consts.add(int(x.get("value")))
+            except (TypeError, ValueError):
+                pass
+        t = (x.get("type") or {}).get("qualType", "") if x.get("kind") == "VarDecl" else ""
+        m = _re.search(r"\[(\d+)\]$", t)
+        if m:
+            consts.add(int(m.group(1)))
+    out = {0, 1, 3}
+    for c in consts:
+        if 2 < c <= 4096:
+            out.update({c - 2, c - 1, c, c + 1})
+    return sorted(out)
+
+
+def string_converter_verdict(h) -> Optional[Dict[str, List[str]]]:
+    """unwrap<string> and wrap<string> run (own interpreter over the clang AST; mxArrayToString, mxGetString with its documented
+    cut at length-1, mxCreateString, local buffers whose bytes start uninitialised) on character arrays of the boundary lengths,
+    a column and a matrix of characters, and on arrays that are not characters.  Returns {'unwrap': [...], 'wrap': [...]}: the
+    differences found (empty = none), or None where the function uses constructs the interpreter does not know."""
+    from .cinterp import CError, CUnknown, MxArray, run_function
+    out: Dict[str, List[str]] = {}
+    fu, fw = _string_spec(h, "unwrap"), _string_spec(h, "wrap")
+
+    def text(n):
+        return [chr(97 + k % 26) for k in range(n)]
+    if fu is not None:
+        fu = inline_helpers(h, fu)
+        params = [p.get("name") for p in fu.get("inner", []) if p.get("kind") == "ParmVarDecl"]
+        diffs: List[str] = []
+        try:
+            shapes = [(1, n) for n in _boundary_lengths(fu)] + [(0, 0), (3, 1), (2, 2)]
+            for m, n in shapes:
+                arr = MxArray(m, n, text(m * n), cls="mxCHAR_CLASS")
+                try:
+                    res, mach = run_function(fu, {params[0]: arr}, budget=200000)
+                except CError:
+                    diffs.append(f"a {m}x{n} character array is reported as an error")
+                    continue
+                if not isinstance(res, str):
+                    raise CUnknown("result is not a string")
+                if res != "".join(arr.data):
+                    diffs.append(f"a {m}x{n} character array ({m * n} characters) comes back with {len(res)} character(s)"
+                                 if len(res) != m * n else f"a {m}x{n} character array comes back with other characters")
+                faults = mach.faults + [o for b in mach.buffers for o in b.oob] + arr.oob
+                if faults:
+                    diffs.append(f"a {m}x{n} character array: {faults[0]}")
+            for arr, what in ((MxArray(1, 1, [65.0]), "a 1x1 double"), (MxArray(1, 3, [72.0, 105.0, 33.0]), "a 1x3 double"),
+                              (MxArray(0, 0, []), "an empty double ([])"), (MxArray(1, 2, [1, 0], cls="mxLOGICAL_CLASS"), "a logical array")):
+                try:
+                    res, mach = run_function(fu, {params[0]: arr}, budget=200000)
+                    diffs.append(f"{what} is accepted as a string ({res!r})")
+                except CError:
+                    pass
+            out["unwrap"] = diffs
+        except (CUnknown, IndexError, KeyError, TypeError):
+            pass
+    if fw is not None:
+        fw = inline_helpers(h, fw)
+        params = [p.get("name") for p in fw.get("inner", []) if p.get("kind") == "ParmVarDecl"]
+        diffs = []
+        try:
+            for n in _boundary_lengths(fw):
+                txt = "".join(text(n))
+                try:
+                    res, mach = run_function(fw, {params[0]: txt}, budget=200000)
+                except CError:
+                    diffs.append(f"a string of {n} character(s) is reported as an error")
+                    continue
+                if not isinstance(res, MxArray):
+                    raise CUnknown("result is not an array")
+                if res.cls != "mxCHAR_CLASS" or "".join(map(str, res.data)) != txt:
+                    diffs.append(f"a string of {n} character(s) becomes a {res.m}x{res.n} {res.cls} array with other contents")
+                faults = mach.faults + [o for b in mach.buffers for o in b.oob] + res.oob
+                if faults:
+                    diffs.append(f"a string of {n} character(s): {faults[0]}")
+            out["wrap"] = diffs
+        except (CUnknown, IndexError, KeyError, TypeError):
+            pass
+    return out or None
+
+
+def string_verdict(ctx):
+    return ctx._get("string_verdict", lambda: string_converter_verdict(header(ctx)))
+
+
+def rule_strings_by_evaluation(ctx, rep: Report, rid="K15"):
+    """Strings round-trip unchanged and only character arrays are accepted - decided by running the two string converters on
+    sample arrays (see string_converter_verdict)."""
+    v = string_verdict(ctx) or {}
+    h = header(ctx)
+    for fam in ("unwrap", "wrap"):
+        f = _string_spec(h, fam)
+        if f is None:
+            raise AnalysisError(f"{fam}<string> not found")
+        if fam not in v:
+            rep.add(rid, f"{fam}<string>:by evaluation", True, "not decided: written with constructs the interpreter does not know; the structural "
+                    "rules (K8, K10) apply", hloc(f), nontrivial=False)
+            continue
+        d = v[fam]
+        label = ("unwrap<string>:every character array gives its characters, whatever its length; anything else is an error" if fam == "unwrap"
+                 else "wrap<string>:a string becomes the character array with the same characters")
+        rep.add(rid, label, not d, f"run on sample values: {d[:3]}: a string argument or result (a key name, a file path) arrives cut, padded with "
+                "whatever the buffer held, or a numeric array is read as text", hloc(f))
+    rep.units["string_converters_evaluated"] = sorted(v)
+
+
 def rule_loop_shapes(ctx, rep: Report, rid="K5"):
     h = header(ctx)
     wm = h.functions("wrap_Matrix")
@@ -597,7 +754,12 @@ def rule_error_terminal(ctx, rep: Report, rid="K6"):
                 ok = guard_exact(f, {("eq", "mxGetM", 1): True, ("eq", "mxGetN", 1): True}) is True
             detail = (f"condition {sorted(srcs)} ({top.get('opcode')}) is none of `M != 1 || N != 1`, `numel != 1`, "
                       f"`!mxIsScalar`; raises={raises}: some non-1x1 array (e.g. an empty one) passes as a scalar")
+    ev = scalar_guard_verdict(h, f)
+    if ev is not None:
+        ok, detail = not ev, f"run on sample arrays: {ev[:4]}: a scalar converter then reads the first element of an array that is not a scalar " \
+                              f"(or reads past the end of an empty one), or refuses a scalar"
     rep.add(rid, "checkScalar:rejects anything but 1x1", ok, detail or "no if-statement found", hloc(f))
+    rep.units["checkScalar_by_evaluation"] = ev is not None
     fs = h.functions("checkArguments")
     if fs:
         f = fs[0]
@@ -747,6 +909,11 @@ def rule_returns_depend_on_argument(ctx, rep: Report, rid="K8"):
                     for ln in lhs_names:
                         deps.setdefault(ln, set()).update(rhs_names)
                 # a call that fills one of its arguments from the others (memcpy(dst, src, n), std::copy ...)
+                if x.get("kind") == "CallExpr" and callee(x) == "mxGetString":
+                    a = call_args(x)                  # mxGetString(array, buffer, length) fills its second argument from the first
+                    if len(a) >= 2:
+                        for ln in [r for y in walk(a[1]) for r in [ref_name(y)] if r]:
+                            deps.setdefault(ln, set()).update(r for z in (a[0], *a[2:]) for y in walk(z) for r in [ref_name(y)] if r)
                 if x.get("kind") == "CallExpr" and callee(x) in ("memcpy", "memmove", "copy", "strcpy", "strncpy"):
                     a = call_args(x)
                     if len(a) >= 2:
